@@ -5,6 +5,7 @@ Imports only model files (no Mathlib) so that it links as a native executable.
 import Cte.Model.Json
 import Cte.Model.Process
 import Cte.Model.Cli
+import Cte.Model.Extra
 import Cte.Model.Decode
 import Cte.Model.Check
 import Cte.Model.Purge
@@ -672,6 +673,36 @@ def opLockTrace (req : J) : J :=
   | (some s, _) => J.obj [("accepted", J.bool true), ("finished", J.bool s.finished), ("events", J.ofNat tr.length)]
   | (none, idx) => J.obj [("accepted", J.bool false), ("first_rejected", J.ofNat idx)]
 
+/-- op `fixextra`: `fix_ecdata_from_extra` on the walls / windows of a converted project (with the computed U and F_sh;obst the
+implementation reported) and the parsed result files -/
+def opFixExtra (req : J) : J :=
+  let str (j : J) (k : String) : String := match j.get? k with | some (J.str s) => s | _ => ""
+  let numOf (j : J) : Option Rat := match j with | J.num n m e => some (J.numVal n m e) | _ => none
+  let pairs (j : Option J) : Option (List (String × Rat)) := match j with
+    | some (J.arr l) => some (l.filterMap (fun p => match p with
+        | J.arr [J.str k, v] => (numOf v).map (fun x => (k, x))
+        | _ => none))
+    | _ => none
+  let walls : List Extra.WallIn := match req.get? "walls" with
+    | some (J.arr l) => l.map (fun w =>
+        let interior : Bool := match w.get? "interior" with | some (J.bool b) => b | _ => false
+        let cu : Rat := ((w.get? "computed_u").bind numOf).getD 0
+        ({ name := str w "name", id := str w "id", interior := interior, computedU := cu } : Extra.WallIn))
+    | _ => []
+  let wins : List Extra.WinIn := match req.get? "windows" with
+    | some (J.arr l) => l.map (fun w => { name := str w "name", id := str w "id", computedFsh := (w.get? "computed_fsh").bind numOf })
+    | _ => []
+  let kyg : Option (List (String × Rat) × List (String × Rat)) := match req.get? "kyg" with
+    | some k@(J.obj _) => some ((pairs (k.get? "walls")).getD [], (pairs (k.get? "windows")).getD [])
+    | _ => none
+  let f : Extra.Files := { kyg := kyg, tbl := pairs (req.get? "tbl") }
+  let lastWins (l : List (String × Rat)) : List (String × Rat) :=
+    l.foldl (fun acc p => (acc.filter (fun q => q.1 != p.1)) ++ [p]) []
+  let jp (l : List (String × Rat)) : J := J.arr (l.map (fun p => J.arr [J.str p.1, jr p.2]))
+  J.obj [("wall_overrides", jp (lastWins (Extra.wallOverrides f walls))),
+         ("win_overrides", jp (lastWins (Extra.winOverrides f wins))),
+         ("extra", match Extra.extraNames f walls with | some l => jStrs l | none => J.null)]
+
 def handle (line : String) : String :=
   match J.parse line with
   | none => "{\"error\":\"bad json\"}"
@@ -705,6 +736,7 @@ def handle (line : String) : String :=
       | some (J.str "raypoly") => opRayPoly req
       | some (J.str "noop") => J.obj []
       | some (J.str "locktrace") => opLockTrace req
+      | some (J.str "fixextra") => opFixExtra req
       | some (J.str "cli") => opCli req
       | some (J.str "thor") => opThor req
       | some (J.str "load") => withModel req (fun _ => J.obj [("ok", J.bool true)])
